@@ -16,6 +16,7 @@ RULE = (
     "the width the descriptor denotes; variables >= names found by an independent leaf traversal and >= the free "
     "constants of the Z3 term; symbolic==False => no symbol leaf; depth == 1 + max child depth; concrete => "
     "concrete_value equals the value of the Z3-folded term.  Non-trivial node: not a leaf; distinct by node hash."
+    " Session 4: float constants built with equal copies of the sort object; set operations over constants with one operand replaced by a variable."
 )
 ASSUMPTIONS = ["over-approximate `variables` is allowed by the statement and not flagged"]
 
